@@ -46,6 +46,7 @@ type Contract struct {
 	Requires []Clause
 	Ensures  []Clause
 	Modifies []ast.Expr
+	HasMod   bool // a modifies clause is present (possibly "modifies nothing")
 	ModText  []string
 	LoopInvs map[int][]Clause
 	OnRet    []OnReturn
@@ -541,9 +542,10 @@ func parseContractFile(path, pkgPath, pkgName string) (*ContractFile, error) {
 			case "recv":
 				cur.Recv = rest
 			case "modifies":
+				cur.HasMod = true
 				for _, m := range splitTop(rest, ',') {
 					m = strings.TrimSpace(m)
-					if m == "" {
+					if m == "" || m == "nothing" {
 						continue
 					}
 					e, err := parseSpec(m)
